@@ -30,7 +30,7 @@ Lemma is_ok_tok ty tag t :
   In tag block_tags -> str_eqb ty s_html_block = false -> str_eqb ty s_html_inline = false ->
   is ty tag t -> ok_tok all_tags t /\ (tchildren t = None \/ tchildren t = Some []).
 Proof.
-  intros HT H1 H2 (A & B & C). split; [|exact C]. unfold ok_tok, not_html. rewrite A, B.
+  intros HT H1 H2 (A & B & C & _). split; [|exact C]. unfold ok_tok, not_html. rewrite A, B.
   split; [unfold all_tags; apply in_or_app; left; exact HT | split; assumption].
 Qed.
 
